@@ -57,6 +57,9 @@ func genC15(r *simrt.Rand, tier string, idx int) *hx.Program {
 	p := &hx.Program{P: map[string]int64{}}
 	p.P["sticky"] = 95
 	p.P["policy"] = int64(r.Uint64() >> 1)
+	if r.Pct(6) {
+		p.P["nopolicy"] = 1 // authorisation switched on, but no model/policy configured: nobody is authorised to do anything
+	}
 	n := 10 + r.Intn(20)
 	if tier == "thorough" {
 		n = 10 + r.Intn(50)
@@ -81,8 +84,13 @@ func genC15(r *simrt.Rand, tier string, idx int) *hx.Program {
 	return p
 }
 
+var c15NoIdentity bool // authorisation without model/policy: the interceptors that put the client's identity into the context are not installed
+
 func c15ctx(who string, d time.Duration) (context.Context, context.CancelFunc) {
 	ctx, cancel := context.WithTimeout(context.Background(), d)
+	if c15NoIdentity {
+		return ctx, cancel
+	}
 	return context.WithValue(ctx, "clientID", who), cancel
 }
 
@@ -125,11 +133,16 @@ func execC15(t *testing.T, prog *hx.Program, dec *simrt.Decider, verbose bool) *
 			h.oc.Trouble = "tls files: " + terr.Error()
 			return
 		}
+		nopolicy := prog.Param("nopolicy", 0) == 1
+		c15NoIdentity = nopolicy
+		defer func() { c15NoIdentity = false }()
 		h.cfgHook = func(n *simNode, c *Config) {
 			c.TLSCert, c.TLSKey = certFile, keyFile
 			c.TLSClientAuthz = true
-			c.TLSClientAuthzModel = modelPath
-			c.TLSClientAuthzPolicy = policyPath
+			if !nopolicy {
+				c.TLSClientAuthzModel = modelPath
+				c.TLSClientAuthzPolicy = policyPath
+			}
 			c.CursorsStream.Partitions = 1
 		}
 		n := h.single()
@@ -140,9 +153,12 @@ func execC15(t *testing.T, prog *hx.Program, dec *simrt.Decider, verbose bool) *
 			h.oc.Trouble = "cursors stream was not created"
 			return
 		}
-		may := func(who, res, act string) bool { return policy[who+"|"+res+"|"+act] }
+		may := func(who, res, act string) bool { return !nopolicy && policy[who+"|"+res+"|"+act] }
 		// admin creates foo and bar and keeps a group subscription on bar
 		for _, name := range []string{"foo", "bar"} {
+			if nopolicy {
+				break // (nobody may create anything; the calls below all have to be refused)
+			}
 			var err error
 			h.rpc(n, "create", func(api *apiServer) {
 				ctx, cancel := c15ctx("admin", 10*time.Second)
@@ -158,7 +174,7 @@ func execC15(t *testing.T, prog *hx.Program, dec *simrt.Decider, verbose bool) *
 		defer adminCancel()
 		adminSub := h.subscribe(n, adminCtx, &client.SubscribeRequest{Stream: "bar", StartPosition: client.StartPosition_EARLIEST, Consumer: &client.Consumer{GroupId: "g", ConsumerId: "admin-1", GroupEpoch: 5}})
 		h.waitFor("admin-sub", 5*time.Second, func() bool { return adminSub.opened || adminSub.ended })
-		if !adminSub.opened {
+		if !adminSub.opened && !nopolicy {
 			h.oc.Trouble = fmt.Sprintf("admin's group subscription did not start: %v", adminSub.err)
 			return
 		}
@@ -198,9 +214,23 @@ func execC15(t *testing.T, prog *hx.Program, dec *simrt.Decider, verbose bool) *
 		}
 		settle := func() { simrt.Sleep(300 * time.Millisecond) }
 		created := 0
+		sessions := map[string]*pubStream{}
+		sessEnded := map[string]bool{}
+		var sessCancel []context.CancelFunc
+		defer func() {
+			for _, ps := range sessions {
+				ps.done = true
+			}
+			for _, c := range sessCancel {
+				c()
+			}
+		}()
 		for i, op := range prog.Ops {
 			if h.stop {
 				break
+			}
+			if op.K == "reload" && nopolicy {
+				continue
 			}
 			if op.K == "reload" {
 				writePolicy(uint64(op.Arg(0, 1)))
@@ -220,7 +250,7 @@ func execC15(t *testing.T, prog *hx.Program, dec *simrt.Decider, verbose bool) *
 			stream := c15Streams[op.Arg(0, 0)%2] // foo or bar
 			if n.srv.metadata.GetStream(stream) == nil {
 				stream = "foo"
-				if n.srv.metadata.GetStream(stream) == nil {
+				if n.srv.metadata.GetStream(stream) == nil && !nopolicy {
 					continue
 				}
 			}
@@ -288,6 +318,36 @@ func execC15(t *testing.T, prog *hx.Program, dec *simrt.Decider, verbose bool) *
 				})
 			case "publishasync":
 				action = "Publish"
+				if op.Arg(1, 0)%2 == 0 {
+					// a long-lived PublishAsync call: opened once per client and kept across policy reloads;
+					// every message on it is authorised (or not) by the policy in force when it is sent
+					ps := sessions[who]
+					if ps == nil || sessEnded[who] {
+						sctx, scancel := c15ctx(who, time.Hour)
+						ps = &pubStream{ctx: sctx, sim: h.s}
+						sessions[who], sessEnded[who] = ps, false
+						sessCancel = append(sessCancel, scancel)
+						w := who
+						h.s.GoNode(n.node, "rpc:publishasync-session", func() { n.srv.api.PublishAsync(ps); sessEnded[w] = true })
+					}
+					nout := len(ps.out)
+					ps.in = append(ps.in, &client.PublishRequest{Stream: stream, Value: []byte(fmt.Sprintf("%s-session-%d", who, i)), AckPolicy: client.AckPolicy_LEADER, CorrelationId: fmt.Sprintf("s%d", i)})
+					w := who
+					h.waitFor("session-resp", 2*time.Second, func() bool { return len(ps.out) > nout || sessEnded[w] })
+					for _, r := range ps.out[nout:] {
+						if r.AsyncError != nil {
+							err = fmt.Errorf("async error %v: %s", r.AsyncError.Code, r.AsyncError.Message)
+						}
+					}
+					if len(ps.out) == nout && err == nil {
+						if sessEnded[who] {
+							err = fmt.Errorf("the call ended without a response")
+						} else {
+							extra = " (no response)"
+						}
+					}
+					break
+				}
 				ctx, cancel := c15ctx(who, 3*time.Second)
 				ps := &pubStream{ctx: ctx, sim: h.s, in: []*client.PublishRequest{{Stream: stream, Value: []byte(fmt.Sprintf("%s-async-%d", who, i)), AckPolicy: client.AckPolicy_LEADER, CorrelationId: fmt.Sprintf("c%d", i)}}}
 				done := false
